@@ -602,6 +602,8 @@ def main():
     vlib.proof_phase(ctx, extra_targets=['Extract/ExtractCodec.vo'])
     # the walk with static offsets, over the functions translated from core.hpp on this run (Gen/GenWalk.v)
     vlib.proof_phase_extra(ctx, 'Properties_walk_source')
+    # the strides update installs (what the generated offsets must equal), as translated from compiler.hpp (Gen/GenRep.v)
+    vlib.proof_phase_extra(ctx, 'Properties_rep_source')
     mdl, drv = build_binaries(ctx)
     if ctx.replay:
         replay(ctx, mdl, drv, oracle_c12, PREFIXES, IMPL_SUBSET)
